@@ -253,8 +253,11 @@ Definition c_local_extrema (sq : Q -> Q) (p0 p1 p2 p3 : Q) : list Q :=
       let t := - b / (2 * a) in if in_range t then [t] else []
     else
       let s := sq disc in
-      let e1 := (- b - s) / (2 * a) in
-      let e2 := (- b + s) / (2 * a) in
+      (* numerically stable form: -b and the square root are never subtracted from one another *)
+      let sign_b := if Qle_bool 0 b then 1 else - (1) in
+      let q := - (1 # 2) * (b + sign_b * s) in
+      let e1 := q / a in
+      let e2 := c / q in
       let '(e1, e2) := if Qltb e2 e1 then (e2, e1) else (e1, e2) in
       (if in_range e1 then [e1] else []) ++ (if in_range e2 then [e2] else []).
 
